@@ -16,7 +16,7 @@ RULE = ("operation sequences (1-60 ops) over add_event/add_events/get_event/get_
         "retrievals and >=1 timestamp tie; distinct = distinct operation-kind/timestamp sequence")
 PROBES = ["tie_same_ts", "tie_same_ts_and_prec", "insert_between_retrievals", "roundtrip", "roundtrip_then_ops",
           "get_current_below_all", "get_current_partial", "nonmonotone_t", "drained_then_reused", "base_event",
-          "restored_vs_original_compared", "failed_bulk_insert", "user_set_precedence", "batch_of_512_or_more", "checkpoint_with_another_heap_layout", "str_or_repr_taken"]
+          "restored_vs_original_compared", "failed_bulk_insert", "user_set_precedence", "batch_of_512_or_more", "checkpoint_with_another_heap_layout", "str_or_repr_taken", "handed_out_event_queued_again", "earlier_result_lists_kept"]
 FAULT_DIMENSION = "restart (JSON round trip of the queue at arbitrary points of the operation sequence); a bulk insert that fails part-way (non-event element) and is survived by the caller"
 REAL_VS_STUB = "real: EventQueue, Event classes, EV, Battery, BaseSimObj JSON; ours: sorted-list reference model"
 ASSUMPTIONS = ["get_event on an empty queue is not generated (unspecified)",
@@ -78,6 +78,11 @@ def gen(rs, tier):
             ops.append({"op": "last_ts"})
         elif k < 0.94:
             ops.append({"op": "queue"})
+            if sub(rs, "readd", len(ops)).random() < 0.5:
+                # an event object that the queue handed out earlier is queued again (a timer event re-armed by its handler), as it is or
+                # with a new timestamp
+                rr_ = sub(rs, "readd", len(ops))
+                ops.append({"op": "readd", "pick": rr_.randrange(10 ** 6), "ts": rr_.choice([None, None, rr_.randint(tmin, tmax + 3)])})
             if sub(rs, "show", len(ops)).random() < 0.5:
                 ops.append({"op": "show"})       # the caller prints / logs the queue (str, repr, len, bool, iteration over the read-only view)
         else:
@@ -148,6 +153,8 @@ def check(sc):
             inserted_since = False
             last_t = None
             after_rt = False
+            handed = []            # event objects the queue has handed out
+            kept = []              # (op index, the list object returned by get_current_events, the keys it held then)
 
             def order(k):
                 return (k[0], prec_of(k))
@@ -206,6 +213,7 @@ def check(sc):
                     if not model:
                         continue
                     e = q.get_event()
+                    handed.append(e)
                     k = key_of(e)
                     if shadow is not None:
                         ks_ = key_of(shadow.get_event())
@@ -231,7 +239,19 @@ def check(sc):
                         out.probe("roundtrip_then_ops")
                 elif o == "get_current":
                     t = op["t"]
-                    res = [key_of(e) for e in q.get_current_events(t)]
+                    lst_ = q.get_current_events(t)
+                    handed.extend(lst_)
+                    res = [key_of(e) for e in lst_]
+                    for j_, old_, keys_ in kept:
+                        if [key_of(e_) for e_ in old_] != keys_:
+                            out.add("C11/earlier_result_changed", "op %d: the list returned by get_current_events at op %d held %s then and holds %s now"
+                                    % (i, j_, keys_[:6], [key_of(e_) for e_ in old_][:6]))
+                            break
+                    if out.viol:
+                        break
+                    if len(kept) < 6:
+                        kept.append((i, lst_, list(res)))
+                        out.probe("earlier_result_lists_kept")
                     if shadow is not None:
                         rs_ = [key_of(e) for e in shadow.get_current_events(t)]
                         out.probe("restored_vs_original_compared")
@@ -282,6 +302,20 @@ def check(sc):
                     if got != sorted(model, key=str) or any(ts != e.timestamp for ts, e in q.queue):
                         out.add("C11/queue_property", "op %d queue %s model %s" % (i, got[:8], sorted(model, key=str)[:8]))
                         break
+                elif o == "readd":
+                    pend_ = {id(e_) for _, e_ in q.queue}
+                    cand_ = [e_ for e_ in handed if id(e_) not in pend_]
+                    if cand_:
+                        e = cand_[op["pick"] % len(cand_)]
+                        if op.get("ts") is not None:
+                            e.timestamp = op["ts"]
+                        q.add_event(e)
+                        model.append(key_of(e))
+                        shadow, w_sh = None, None        # (the original queue of an earlier round trip holds other objects: no twin from here on)
+                        # the lists handed out earlier may hold this very object: what they held then is judged by identity from here on
+                        kept = [(j_, old_, [key_of(x_) for x_ in old_]) for j_, old_, _ in kept]
+                        inserted_since = True
+                        out.probe("handed_out_event_queued_again")
                 elif o == "show":
                     for qq in (q, shadow):
                         if qq is not None:
@@ -333,6 +367,7 @@ def check(sc):
                         if ev is not None:
                             w.evs[ev.session_id] = ev
                     out.probe("roundtrip")
+                    handed = []           # (events handed out before the restart reference the EV objects of before the restart)
                     after_rt = True
                     log.append(("roundtrip",))
             # final drain must come out in order
